@@ -216,10 +216,12 @@ impl Sentinel {
     }
     pub fn reset(&self) {
         // outside the root: canaries under the same names as the workspace files
-        for d in [&self.outer, &self.elsewhere] {
-            let tag = if d == &self.outer { "CANARY-OUTER" } else { "DECOY-CWD" };
+        let sibling = self.outer.join("root-private");
+        let _ = std::fs::create_dir_all(&sibling);
+        for d in [&self.outer, &self.elsewhere, &sibling] {
+            let tag = if d == &self.elsewhere { "DECOY-CWD" } else { "CANARY-OUTER" };
             for e in std::fs::read_dir(d).into_iter().flatten().flatten() {
-                if e.path() != self.root {
+                if e.path() != self.root && e.path() != sibling {
                     let _ = std::fs::remove_dir_all(e.path());
                     let _ = std::fs::remove_file(e.path());
                 }
@@ -278,6 +280,7 @@ fn comp_str(c: &str) -> String {
         "new" => "new.txt".to_string(),
         "long" => "L".repeat(300),
         "uni" => "ü.txt".to_string(),
+        "bs_up" => "sub\\..\\..\\a.txt".to_string(),
         other => other.to_string(),
     }
 }
@@ -285,12 +288,21 @@ fn comp_str(c: &str) -> String {
 pub fn render_path(shape: &Value, s: &Sentinel) -> String {
     let comps: Vec<String> = shape["comps"]
         .as_array()
-        .map(|a| a.iter().map(|c| comp_str(c.as_str().unwrap_or(""))).collect())
+        .map(|a| {
+            a.iter()
+                .map(|c| match c.as_str().unwrap_or("") {
+                    // an "absolute" path written with backslashes: \<outer>\a.txt
+                    "bs_abs" => format!("{}\\a.txt", s.outer.to_string_lossy().replace('/', "\\")),
+                    other => comp_str(other),
+                })
+                .collect()
+        })
         .unwrap_or_default();
     let mut p = comps.join("/");
     match shape["anchor"].as_str() {
         Some("abs_out") => p = format!("{}/{}", s.outer.to_string_lossy(), p),
         Some("abs_in") => p = format!("{}/{}", s.root.to_string_lossy(), p),
+        Some("abs_sib") => p = format!("{}-private/{}", s.root.to_string_lossy(), p),
         _ => {}
     }
     if shape["trail"].as_bool().unwrap_or(false) {
@@ -508,6 +520,10 @@ fn patch_for_at(o: &Value, root: &Path) -> String {
         let line = std::fs::read_to_string(root.join(p)).unwrap_or_default().lines().next().unwrap_or("missing").to_string();
         return format!("*** Begin Patch\n*** Update File: {p}\n*** Move to: {}\n@@\n {line}\n*** End Patch", o["q"].as_str().unwrap_or(""));
     }
+    if o["k"] == "patch_upd" {
+        let line = std::fs::read_to_string(root.join(p)).unwrap_or_default().lines().next().unwrap_or("missing").to_string();
+        return format!("*** Begin Patch\n*** Update File: {p}\n@@\n-{line}\n+content-{}\n*** End Patch", o["v"].as_str().unwrap_or(""));
+    }
     patch_for(o)
 }
 
@@ -560,7 +576,7 @@ pub fn engine_ckpt(rt: &tokio::runtime::Runtime, cases: Vec<Value>, out: &mut Nd
                         events = to_vals(rt.block_on(runner.run("s", &mut seq, ToolInvocation {
                             name: "write".into(), args: json!({"path": o["p"], "content": format!("content-{}\n", o["v"].as_str().unwrap_or(""))}), timeout_ms: None })));
                     }
-                    "patch_add" | "patch_del" | "patch_move" => {
+                    "patch_add" | "patch_upd" | "patch_del" | "patch_move" => {
                         events = to_vals(rt.block_on(runner.run("s", &mut seq, ToolInvocation {
                             name: "apply_patch".into(), args: json!({"patch": patch_for_at(o, &root)}), timeout_ms: None })));
                     }
@@ -599,7 +615,7 @@ pub fn engine_ckpt(rt: &tokio::runtime::Runtime, cases: Vec<Value>, out: &mut Nd
                             Some(json!({"checkpoint": {"action": "create", "label": "manual", "files": files}}).to_string())
                         }
                         "write" => Some(json!({"tool": "write", "args": {"path": o["p"], "content": format!("content-{}\n", o["v"].as_str().unwrap_or(""))}}).to_string()),
-                        "patch_add" | "patch_del" | "patch_move" => Some(json!({"tool": "apply_patch", "args": {"patch": patch_for_at(o, &root2)}}).to_string()),
+                        "patch_add" | "patch_upd" | "patch_del" | "patch_move" => Some(json!({"tool": "apply_patch", "args": {"patch": patch_for_at(o, &root2)}}).to_string()),
                         "rewind" => {
                             let i = o["i"].as_u64().unwrap_or(0) as usize;
                             let id = if i == 0 { "no-such-checkpoint".to_string() } else { cp_ids.get(i - 1).cloned().unwrap_or_default() };
